@@ -196,6 +196,8 @@ impl Grammar {
 pub enum Case {
     Grammar(Grammar),
     Arbitrary(B),
+    /// end to end: a small valid log stored under the decorated name must print what it prints under the plain name
+    EndToEnd(Grammar),
 }
 
 fn case_variant(w: &str, mode: u8) -> String {
@@ -340,7 +342,7 @@ impl Property for C16 {
             }),
         ]
         .prop_map(|v| Case::Arbitrary(B(v.into_iter().filter(|&b| b != 0).collect())));
-        prop_oneof![4 => grammar().prop_map(Case::Grammar), 1 => arb].boxed()
+        prop_oneof![400 => grammar().prop_map(Case::Grammar), 100 => arb, 3 => grammar().prop_map(Case::EndToEnd)].boxed()
     }
     fn extra(&self, _ctx: &Ctx, st: &mut Stats) {
         // exhaustive finite core
@@ -443,6 +445,54 @@ impl Property for C16 {
                     o.with_sample(json!({"name": g.path(), "class": format!("{:?}", class)}))
                 }
             },
+            Case::EndToEnd(g) => {
+                use crate::s4run::*;
+                let class = reference(&g.name(), true);
+                // content matching the reader chosen by the name
+                let (content, plain_name): (Vec<u8>, &str) = match class.0 {
+                    Reader::Text => (b"2020-01-02T03:04:05.000000+00:00 #a one\n2020-01-02T03:04:06.000000+00:00 #b two\n".to_vec(), "plain.log"),
+                    Reader::Utmp | Reader::Utmpx => {
+                        let ff = crate::fixedgen::FixedFile { layout: 0, recs: (0..3).map(|k| crate::fixedgen::FRec { sec: 1_600_000_000 + k, usec: 1, null: 0, pid: 5, typ: 6, serial: k as u32, full: 0 }).collect() };
+                        (ff.render(), "plain.wtmp")
+                    }
+                    _ => return Outcome::discard("end-to-end sample only for text and utmp names"),
+                };
+                let data = match class.1 {
+                    Cont::None => content.clone(),
+                    Cont::Gz => {
+                        use std::io::Write;
+                        let mut e = flate2::write::GzEncoder::new(Vec::new(), flate2::Compression::default());
+                        e.write_all(&content).unwrap();
+                        e.finish().unwrap()
+                    }
+                    _ => return Outcome::discard("end-to-end sample only plain and gz"),
+                };
+                let name = g.name();
+                if name.len() > 200 || name.contains('/') {
+                    return Outcome::discard("name not usable as a single file name");
+                }
+                let sc = Scratch::new();
+                let a = sc.write(plain_name, &content);
+                let b = sc.write(&format!("d/{}", name), &data);
+                let run = |p: &std::path::Path| {
+                    let mut args = osargs(["--color", "never", "-t=+00:00"]);
+                    args.push(p.into());
+                    run_s4(RunSpec { args, tmpdir: Some(&sc.dir), ..Default::default() })
+                };
+                let (oa, ob) = (run(&a), run(&b));
+                if oa.timed_out || ob.timed_out {
+                    return Outcome::inconclusive("timeout".into());
+                }
+                if !ob.ok01() || ob.panicked() {
+                    return Outcome::fail("crash", format!("name {:?}: status={:?} signal={:?} stderr={}", name, ob.status, ob.signal, ob.stderr_str()));
+                }
+                if oa.stdout != ob.stdout || oa.stdout.is_empty() {
+                    return Outcome::fail("end-to-end", format!("name {:?} (reference class {:?}) prints {} bytes, the plain name prints {} bytes", name, class, ob.stdout.len(), oa.stdout.len()));
+                }
+                let mut o = Outcome::pass(true, fnv(name.as_bytes()) ^ 0x5555).class("end-to-end");
+                o.evals = 2;
+                o
+            }
             Case::Arbitrary(b) => {
                 let name = OsString::from_vec(b.0.clone());
                 for flag in [true, false] {
